@@ -1,5 +1,6 @@
 import FluteModel.Lemmas.SchedRRAll
 import FluteModel.Lemmas.SchedBencLog
+import FluteModel.Lemmas.SchedBencLen
 /-
   C13 - Scheduling: FIFO admission, multiplex bound (strict priority and round robin: see below).
   Interleave window (`open blocks ≤ interleave_blocks`, opened in increasing SBN) is a property of one
@@ -367,8 +368,11 @@ theorem transfer_abstraction_contract {P : Params} {c : Flute.Fec.Bytes} {aL aS 
       absRes e (BlockEnc.read P e force) = some (Sched.encRead N (absEnc e) force) :=
   enc_contract_nocode h0 hc
 
-/-- **interleave window** (C13: "within an object at most `interleave_blocks` source blocks are open at once, opened in
-    increasing block number") for every object packet sequence this model can emit for one transfer.  Whatever force
+/-- **interleave window, per transfer, on the abstract encoder's replay** (`absReplay`: iterated `Sched.encRead` - NOT yet a
+    statement about `Sched.read`; the statements about traces and states of `Sched.read` histories are
+    `interleave_window_every_packet` and `interleave_window_composed` below, built from this one).  C13: "within an object
+    at most `interleave_blocks` source blocks are open at once, opened in increasing block number", for every packet
+    sequence the abstract encoder can emit for one transfer.  Whatever force
     flags `fs` the scheduler issues (removal at any packet index) - if its abstract encoder `Sched.encRead N` answers each
     call with a packet (`absReplay`: indices and B flags `out`, final abstract state `a`), then these packets ARE the
     packets of a genuine `BlockEncoder` run `tr` with the same flags (`Run`, benc's byte-level model): same indices
@@ -474,6 +478,16 @@ theorem nocode_object_described {P : Params} {c : Flute.Fec.Bytes} {aL aS nL n :
     (h0 : Run P c aL aS nL n cl0 [] s0) (hc : P.codec = Flute.Fec.noCode) :
     ∃ N, 1 ≤ N ∧ Describes P c aL aS nL n N :=
   describes_nocode h0 hc
+
+/-- … with the RIGHT count: for every non-empty FEC No-Code buffer object without repair symbols (`parity = 0`, as the
+    sender configures No-Code) `Describes` holds with `N = ⌈len / E⌉` - the `nSym` this model is given for such an object
+    (the engine derives it from the length the same way).  So for an object added with `nSym = ⌈len / E⌉` the two main
+    statements `interleave_window_every_packet` / `interleave_window_composed` apply without a free `N`.
+    (`Lemmas/SchedBencLen.lean`: the complete transfer has exactly the object's source symbols.) -/
+theorem nocode_object_described_divCeil {P : Params} {c : Flute.Fec.Bytes} {aL aS nL n : Nat} {cl0 : Bool}
+    {s0 : BlockEnc.Enc} (h0 : Run P c aL aS nL n cl0 [] s0) (hc : P.codec = Flute.Fec.noCode) (hp : P.p = 0) :
+    Describes P c aL aS nL n (Flute.divCeil c.length P.e) :=
+  describes_nocode_divCeil h0 hc hp
 
 /-- non-vacuity of `Describes`: benc's 5-byte No-Code object (E = 2, B = 2, window 2) has 3 packets per transfer,
     closable or not, and the closable listing ends with B -/
